@@ -148,16 +148,21 @@ Fixpoint apply_ops (ops : list sop) (st : store) : store * list (option val) :=
 (* ---------------------------------------------------------------------------------------------
    The storage monad: every client call is a visible boundary
    --------------------------------------------------------------------------------------------- *)
+(* [Block]: the call parks on a condition variable that nothing in a sequential incarnation can signal
+   (hasMoreSpace.Wait during Start, before any consumer runs): no further storage call is ever made *)
 Inductive act (A : Type) : Type :=
 | Done (a : A)
-| Call (ops : list sop) (k : list (option val) -> act A).
+| Call (ops : list sop) (k : list (option val) -> act A)
+| Block.
 Arguments Done {A} a.
 Arguments Call {A} ops k.
+Arguments Block {A}.
 
 Fixpoint bind {A B} (m : act A) (f : A -> act B) : act B :=
   match m with
   | Done a => f a
   | Call ops k => Call ops (fun rs => bind (k rs) f)
+  | Block => Block
   end.
 
 (* budget: None = the process does not die; Some n = it dies before call n+1 *)
@@ -172,6 +177,7 @@ Fixpoint run_act {A} (b : option nat) (st : store) (m : act A) : store * option 
       | Some O => (st, b, None)
       | _ => let '(st1, rs) := apply_ops ops st in run_act (bpred b) st1 (k rs)
       end
+  | Block => (st, None, None)     (* no result, and no death either: the budget is dropped *)
   end.
 
 Definition res_idx (rs : list (option val)) (k : nat) : option N :=
@@ -185,8 +191,9 @@ Definition res_body (rs : list (option val)) (k : nat) : option N :=
    persistentQueue: settings and volatile state
    --------------------------------------------------------------------------------------------- *)
 Record cfg := mkCfg {
-  capacity : Z;        (* set.capacity *)
-  reqSized : bool      (* isRequestSized: sizer is request.RequestsSizer *)
+  capacity : Z;            (* set.capacity *)
+  reqSized : bool;         (* isRequestSized: sizer is request.RequestsSizer *)
+  blockOnOverflow : bool   (* set.blockOnOverflow *)
 }.
 
 (* set.sizer.Sizeof: 1 for the requests sizer; the harness' other sizer is (id mod 3) + 1 *)
@@ -236,7 +243,12 @@ Definition initStorage (c : cfg) : act vol :=
         Done (mkVol r w [] (Z.of_N qs') false 1 0))
     else Done (mkVol r w [] (Z.of_N qs) false 1 0)).
 
-(* func (pq) putInternal (blockOnOverflow = false); result: true = nil, false = ErrQueueIsFull *)
+(* putInternal's loop "for queueSize+reqSize > capacity": with blockOnOverflow the call waits on
+   hasMoreSpace instead of returning ErrQueueIsFull *)
+Definition would_wait (c : cfg) (v : vol) (r : N) : bool :=
+  blockOnOverflow c && Z.ltb (capacity c) (qsize v + sizeof c r).
+
+(* func (pq) putInternal when it does not wait; result: true = nil, false = ErrQueueIsFull *)
 Definition putInternal (c : cfg) (v : vol) (r : N) : act (vol * bool) :=
   let sz := sizeof c r in
   if Z.ltb (capacity c) (qsize v + sz) then Done (v, false)
@@ -254,6 +266,8 @@ Fixpoint reenqueue (c : cfg) (v : vol) (ivs : list (N * option val)) (dels : lis
   match ivs with
   | [] => Call (map DelItem dels) (fun _ => Done (v, errc))          (* cleanup() *)
   | (i, Some (VBody r)) :: t =>
+      if would_wait c v r then Block      (* Start waits for space; no consumer is running yet *)
+      else
       bind (putInternal c v r) (fun x =>
         if snd x then reenqueue c (fst x) t (dels ++ [i]) errc
         else reenqueue c (set_cdi (fst x) (cdi (fst x) ++ [i])) t dels (S errc))
@@ -287,6 +301,26 @@ Fixpoint swap_remove (x : N) (l : list N) : list N :=
 Definition itemDispatchingFinish (v : vol) (index : N) : act vol :=
   let l := swap_remove index (cdi v) in
   Call [SetDi l; DelItem index] (fun _ => Done (set_cdi v l)).
+
+(* func (pq) itemDispatchingFinish WITH storage errors (the error-only fallback path): a failing Batch
+   returns an error and applies nothing.  f1: the combined batch fails; then f2: the delete-only batch
+   fails ("failed deleting item from queue": error, nothing changed); else f3: the list-only batch fails
+   ("failed updating currently dispatched items, but deleted item successfully").  The in-memory list is
+   updated in every case.  Result class: 0 nil, 1 delete failed, 2 list update failed. *)
+Definition try_ops (fail : bool) (ops : list sop) (st : store) : store * bool :=
+  if fail then (st, false) else (fst (apply_ops ops st), true).
+
+Definition finish_with_errors (f1 f2 f3 : bool) (v : vol) (index : N) (st : store) : store * vol * nat :=
+  let l := swap_remove index (cdi v) in
+  let v' := set_cdi v l in
+  let '(st1, ok1) := try_ops f1 [SetDi l; DelItem index] st in
+  if ok1 then (st1, v', O)
+  else
+    let '(st2, ok2) := try_ops f2 [DelItem index] st1 in
+    if negb ok2 then (st2, v', 1%nat)
+    else
+      let '(st3, ok3) := try_ops f3 [SetDi l] st2 in
+      (st3, v', if ok3 then O else 2%nat).
 
 (* func (pq) getNextItem *)
 Definition getNextItem (v : vol) : act (vol * option (N * N)) :=
@@ -401,6 +435,7 @@ Definition sstate := (vol * list handle)%type.
 
 Inductive res :=
 | ROffer (accepted : bool)
+| ROfferWait                      (* blockOnOverflow: the call waits; the script cancels its context *)
 | RRead (index r : N)
 | RStopped
 | RBlocked
@@ -417,7 +452,9 @@ Fixpoint remove_nth {A} (k : nat) (l : list A) : list A :=
 Definition run_op (c : cfg) (s : sstate) (o : op) : act (sstate * res) :=
   let '(v, out) := s in
   match o with
-  | Offer r => bind (putInternal c v r) (fun x => Done ((fst x, out), ROffer (snd x)))
+  | Offer r =>
+      if would_wait c v r then Done ((v, out), ROfferWait)
+      else bind (putInternal c v r) (fun x => Done ((fst x, out), ROffer (snd x)))
   | Read =>
       bind (readQ v) (fun x =>
         match snd x with
